@@ -655,6 +655,14 @@ func c12ReportPlumbing(c *Ctx) {
 			ok, why = false, "the rendered histogram's buckets are never parsed"
 		}
 	}
+	// the hist[...] suffix is sliced out of the report type only when it is long enough
+	eachInstr(rep, func(i ssa.Instruction) {
+		if sl, isSl := i.(*ssa.Slice); isSl && sl.X == ssa.Value(rep.Params[1]) {
+			if _, why2, ok2, isSite := dischargeSlice(rep, sl); isSite && !ok2 {
+				ok, why = false, "the report type is sliced without a length guard: "+why2
+			}
+		}
+	})
 	var sites []string
 	for _, u := range um {
 		sites = append(sites, c.at(u))
